@@ -623,7 +623,8 @@ func (kcp *KCP) Input(data []byte, pktType PacketType, ackNoDelay bool) int {
 
 		kcp.debugLog(IKCP_LOG_INPUT, "conv", conv, "cmd", cmd, "frg", frg, "wnd", wnd, "ts", ts, "sn", sn, "una", una, "len", length, "datalen", len(data))
 
-		if len(data) < int(length) {
+		// a segment never carries more than a pooled packet buffer can hold
+		if len(data) < int(length) || length > mtuLimit {
 			return -2
 		}
 
